@@ -19,7 +19,7 @@ ALPHA_Q = ("", "nan", "inf", "-inf", "0.5", "2.5")
 ALPHA_T = ("", "nan", "inf", "-inf", "0.0", "0.5", "1.0", "2.5")
 RULE = (
     "all (4,1,1) tables over {missing, 1e8, 1e8+1, 1e8+4, 98765432.1, -0.5} (large offset, small spread); all tables with (subjects, groups, metrics) in {(3,2,1), (3,1,2), (4,1,1)} over the cell alphabet {missing, nan, inf, -inf, 0.5, 2.5} (thorough: + 0.0, 1.0) and (2,2,2) over {missing, nan, -inf, 0.5, 2.5}^8 (thorough: 6 symbols); "
-    "the table sets are closed under row permutation, so every row order is included; each table through from_file and through the constructor. "
+    "the table sets are closed under row permutation, so every row order is included; each table through from_file and through the constructor, read through get_one_subject, get_summary, get_summary_across_groups, get_summary_dict and the printed summary (print_summary, both modes); all statistics objects of one worker process live in the same process one after another (class-level state would leak). "
     "non-trivial = some (group, metric) column mixes finite and non-finite cells; distinct by table"
 )
 ASSUMPTIONS = ["cells without any finite value are outside the statement: get_summary on them and the across-groups summary of tables containing such a column may raise and are not judged", "statistics compared to 1e-12"]
@@ -78,6 +78,17 @@ def run_case(case, acc):
     if acc.evaluations % 20011 == 1:
         acc.sample({"tsv": text})
     stats = []
+    # explicit two-object history: a predecessor object over the same groups / metrics / subjects with different values is
+    # created and fully queried first (state shared between objects would show in the object under test)
+    try:
+        import contextlib
+        import io
+
+        pre = Panoptica_Statistic(subj_names=list(subjects), value_dict={g: {m: [7.25 + s for s in range(ns)] for m in metrics} for g in groups})
+        pre.get_summary_dict()
+        pre.get_one_subject(subjects[0])
+    except Exception as e:
+        acc.violation(f"C20:predecessor_raised:{type(e).__name__}", case, f"an all-finite table raised {e!r}")
     acc.step()
     try:
         vfs.reset({"/vfs/t/x.tsv": text})
@@ -142,6 +153,54 @@ def run_case(case, acc):
                         ok = False
             except Exception as e:
                 acc.violation(f"C20:{how}:across_groups_raised:{type(e).__name__}", case, f"{how}: get_summary_across_groups raised {e!r} in\n{text}")
+                ok = False
+        # the same statistics through get_summary_dict() and the printed summary (both per group and across groups)
+        if len(avgs) == len(col):
+            try:
+                import contextlib
+                import io
+
+                sd = st.get_summary_dict()
+                for (g, m), c in col.items():
+                    fin = [v for v in c if v is not None]
+                    exp = rm.summary_stats(fin)
+                    sm = sd[g][m]
+                    got = dict(avg=sm.avg, std=sm.std, min=sm.min, max=sm.max)
+                    if [k for k in exp if not rm.close(float(got[k]), exp[k], rel=1e-12, abs_=64 * 2.22e-16 * max(1.0, max(abs(v) for v in fin)))]:
+                        acc.violation(f"C20:{how}:summary_dict", case, f"{how}: get_summary_dict()[{g}][{m}] = {got} but the finite recorded values {fin} give {exp} in\n{text}")
+                        ok = False
+                for m in metrics:
+                    exp = rm.summary_stats([avgs[(g, m)] for g in groups])
+                    sm = sd["across_groups"][m]
+                    got = dict(avg=sm.avg, std=sm.std, min=sm.min, max=sm.max)
+                    if [k for k in exp if not rm.close(float(got[k]), exp[k], rel=1e-12)]:
+                        acc.violation(f"C20:{how}:summary_dict_across_groups", case, f"{how}: get_summary_dict()['across_groups'][{m}] = {got}, statistics over the per-group averages give {exp} in\n{text}")
+                        ok = False
+                for only_across in (False, True):
+                    buf = io.StringIO()
+                    with contextlib.redirect_stdout(buf):
+                        st.print_summary(ndigits=6, only_across_groups=only_across)
+                    cur = None
+                    seen = 0
+                    for line in buf.getvalue().splitlines():
+                        if line.startswith("Group "):
+                            cur = line[len("Group "):].rstrip(":")
+                        elif " : " in line and cur is not None:
+                            m, rest = line.split(" : ", 1)
+                            a, sdev = [float(x) for x in rest.split(" +- ")]
+                            if cur == "across_groups":
+                                exp = rm.summary_stats([avgs[(g, m)] for g in groups])
+                            else:
+                                exp = rm.summary_stats([v for v in col[(cur, m)] if v is not None])
+                            seen += 1
+                            if abs(a - exp["avg"]) > 1e-6 * max(1.0, abs(exp["avg"])) or abs(sdev - exp["std"]) > 1e-6 * max(1.0, abs(exp["std"])):
+                                acc.violation(f"C20:{how}:printed_summary", case, f"{how}: print_summary(only_across_groups={only_across}) shows {m} of group {cur} as {a} +- {sdev}, the recorded values give {exp['avg']} +- {exp['std']} in\n{text}")
+                                ok = False
+                    if seen != (nm if only_across else ng * nm):
+                        acc.violation(f"C20:{how}:printed_summary_incomplete", case, f"{how}: print_summary(only_across_groups={only_across}) printed {seen} entries:\n{buf.getvalue()}")
+                        ok = False
+            except Exception as e:
+                acc.violation(f"C20:{how}:summary_dict_raised:{type(e).__name__}", case, f"{how}: get_summary_dict / print_summary raised {e!r} in\n{text}")
                 ok = False
         # history independence of lookups: summarising (also through ValueSummary(stat.get(g, m)), the idiom of the library's
         # own tests) must not disturb what later per-subject lookups return
